@@ -66,6 +66,13 @@ def handle (op : String) (args : List String) : Option String :=
     | .ok _ => pure s!"ok {r.st} {hexEncode (dnsTTLString r.st)}"
     | .error _ => pure "err"
     | .panic => pure "panic"
+  | "c19.dnsmode" => do
+    -- ttl (ns), length of the observation (ns): what an observer of the lookups sees
+    let ((ttl, run), _) ← (do let t ← int; let r ← int; pure (t, r)).run args
+    match dnsMode ttl with
+    | .disabled => pure "disabled"
+    | .forever => pure "cached"
+    | .refreshEvery t => pure (if t > run then "cached" else "refreshed")
   | "c19.connectto" => do
     let vs ← allBytes args
     let (os, m) := setAll connectToSet [] vs
